@@ -68,8 +68,8 @@ def expected(world, cur, attr, op):
     flags, kw = _flags(op["k"])
     if "bogus" in kw:
         return None  # unknown keywords are rejected before anything happens: that is C17's oracle
-    if any(ops.is_special(v) and v[0] == "$fn" and v[1] == "existing" for v in list(op["a"]) + list(kw.values())):
-        return None  # identity-sensitive transform (depends on which copy of the element it is handed)
+    if any(ops.is_special(v) and v[0] == "$fn" and v[1] in ("existing", "keyless") for v in list(op["a"]) + list(kw.values())):
+        return None  # identity-sensitive transform (depends on which copy of the element it is handed) / an element stripped of its key (C04's subject)
     if flags.get("_if") is False:
         return "same", None
     args = [ops.resolve(world, cur, a) for a in op["a"]]
